@@ -4,19 +4,23 @@ SPEC = {
     "gen": [],
     "streams": [
         {"name": "pool", "cmd": "pool",
-         "args": {"quick": ["-cases", "2000", "-exh-np", "2", "-exh-nb", "2", "-exh-len", "2"],
+         "args": {"quick": ["-cases", "1200", "-exh-np", "2", "-exh-nb", "2", "-exh-len", "2"],
                   "thorough": ["-cases", "20000", "-exh-np", "3", "-exh-nb", "3", "-exh-len", "2"]},
          "search_args": ["-cases", "30000", "-exh-np", "2", "-exh-nb", "2", "-exh-len", "2"]},
+        {"name": "verify", "cmd": "pool",
+         "args": {"quick": ["-mode", "verify", "-cases", "1200"], "thorough": ["-mode", "verify", "-cases", "20000"]},
+         "search_args": ["-mode", "verify", "-cases", "20000"]},
     ],
     "trusted_base": [
         "Coq 8.16.1 kernel (coqc; coqchk in the thorough tier); no native_compute",
         "harness/cmd/pool (drives the real commitment.Pool through NewPool / AddVerifiedExecutorCommitment / ProcessCommitments; records observations as Coq terms; probes run on a field-by-field copy of the pool)",
         "vm_compute evaluation of Verif.Roothash.Pool on the recorded cases (no extraction)",
-        "abstracted, not verified: VerifyExecutorCommitment (signature, RAK, message checks); a commitment is (node, scheduler, round, failure flag, vote hash) and the vote hash an opaque number",
+        "harness/cmd/pool -mode verify (signs commitments with node keys and runs commitment.VerifyExecutorCommitment -> AddVerifiedExecutorCommitment -> ProcessCommitments as roothash/transactions.go does)",
+        "abstracted inside the model of VerifyExecutorCommitment (Roothash/Verify.v): the signature check, message hashing / ValidateBasic of messages, RAK attestation and the message validator are boolean inputs measured on the real commitment by the harness (non-TEE runtime, no messages, nil validator in the harness); hashes are opaque numbers",
         "not modelled: the roothash application's tryFinalizeRound* mapping of outcomes to blocks (finalization.go) and the emitted block header",
     ],
     "assumptions": [
-        "commitments reaching the pool passed VerifyExecutorCommitment: all for the same round, and a scheduler never submits a failure for its own proposal (premise `verified` of the reachability theorem; the harness also exercises histories outside it, where only model/implementation agreement is checked)",
+        "commitments reach the pool through VerifyExecutorCommitment (as in roothash/transactions.go and the executor worker); the premise `verified` of the history theorems is proved from the model of that function and the verify stream checks the model against the real function; the pool stream also exercises histories outside it, where only model/implementation agreement is checked",
         "committee sizes and rounds are far from 2^64 (premises `small` and `rank_inj`: distinct workers have distinct scheduler ranks)",
     ],
 }
